@@ -471,6 +471,52 @@ def instRun (fuel : Nat) (P : Prog) (self : Option Shape) (body : Expr) :
     | .error _ => [none]
     | .ok (v, _, st') => some v :: instRun fuel P self body rest (finSelf self st' v)
 
+mutual
+/-- `Visits P e seg`: evaluating `e` performs state operations at exactly the cells `seg`, in this order, once each —
+the straight-line discipline under which a layout can be published in evaluation order: operands before the operation
+(`mem a` visits `a`'s cells, then its own), arguments left to right before the call, the arms of an `if` stateless
+(state in `if` arms is finding F3), lambda bodies unconstrained (they run against a scratch state in `Model/Core.lean`);
+a call of `f` visits one child cell whose `self` shape is `f`'s and whose cells are those `f`'s body visits -/
+inductive Visits (P : Prog) : Expr → List LCell → Prop
+  | lit {b} : Visits P (.lit b) []
+  | var {x} : Visits P (.var x) []
+  | now : Visits P .now []
+  | samplerate : Visits P .samplerate []
+  | self : Visits P .self []
+  | lam {ps body} : Visits P (.lam ps body) []
+  | un {op a s} : Visits P a s → Visits P (.un op a) s
+  | bin {op a b s1 s2} : Visits P a s1 → Visits P b s2 → Visits P (.bin op a b) (s1 ++ s2)
+  | ite {c a b s} : Visits P c s → Visits P a [] → Visits P b [] → Visits P (.ite c a b) s
+  | letE {x a body s1 s2} : Visits P a s1 → Visits P body s2 → Visits P (.letE x a body) (s1 ++ s2)
+  | letTup {xs a body s1 s2} : Visits P a s1 → Visits P body s2 → Visits P (.letTup xs a body) (s1 ++ s2)
+  | assign {x a rest s1 s2} : Visits P a s1 → Visits P rest s2 → Visits P (.assign x a rest) (s1 ++ s2)
+  | proj {a i s} : Visits P a s → Visits P (.proj a i) s
+  | tup {es s} : VisitsL P es s → Visits P (.tup es) s
+  | app {f args s0 s} : Visits P f s0 → VisitsL P args s → Visits P (.app f args) (s0 ++ s)
+  | mem {a site s} : Visits P a s → Visits P (.mem a site) (s ++ [.mem site])
+  | delay {n a t site s1 s2} : Visits P a s1 → Visits P t s2 → Visits P (.delay n a t site) (s1 ++ s2 ++ [.delay site n])
+  | call {f args site self cells' s} : VisitsL P args s →
+      (∀ d, findFn P.fns f = some d → d.selfShape = self) →
+      (∀ d, findFn P.fns f = some d → Visits P d.body cells') →
+      Visits P (.call f args site) (s ++ [.child site self cells'])
+inductive VisitsL (P : Prog) : List Expr → List LCell → Prop
+  | nil : VisitsL P [] []
+  | cons {e es s1 s2} : Visits P e s1 → VisitsL P es s2 → VisitsL P (e :: es) (s1 ++ s2)
+end
+
+mutual
+/-- the payload has the shape of the layout (`PayOk` without the word counts of the returned values) -/
+def PayShape : LCell → CPay → Prop
+  | .mem _, .mem _ => True
+  | .delay _ _, .delay _ _ => True
+  | .child _ _ cells, .child _ ps => PayShapeL cells ps
+  | _, _ => False
+def PayShapeL : List LCell → List CPay → Prop
+  | [], [] => True
+  | c :: cs, p :: ps => PayShape c p ∧ PayShapeL cs ps
+  | _, _ => False
+end
+
 /-- two machines between samples: same globals, same sample index, agreeing `dsp` state -/
 def MAgree (lay : LNode) (m₁ m₂ : Machine) : Prop :=
   m₁.store = m₂.store ∧ m₁.t = m₂.t ∧ Agree lay m₁.root m₂.root
